@@ -78,7 +78,11 @@ def classify(diags, g):
             hint = None
             for sp in d.get('spans', []):
                 ln = sp['line_start'] - 1
-                if 0 <= ln < len(g.map) and g.map[ln].get('kind') == 'clause' and g.map[ln].get('role') == 'hint' and sp.get('is_primary'):
+                if 0 <= ln < len(g.map) and g.map[ln].get('kind') == 'clause' and sp.get('is_primary') and (
+                        g.map[ln].get('role') == 'hint'
+                        or (g.clauses.get(g.map[ln].get('clause'), {}).get('kind') == 'loop')):
+                    # a proof hint -- or a loop invariant, which is proof script too: when the loop it was written for has
+                    # been restructured (`for` -> `while let`), it may name things that no longer exist
                     hint = g.map[ln]
             if hint is not None:
                 failures.append(dict(kind='hint', clause=hint['clause'], tags=list(hint.get('tags') or []), role='hint', fn=hint.get('fn'),
